@@ -194,6 +194,8 @@ class World:
         self.rids = RequestIds()
         if pin_ids:
             self.rids.install()
+        self._pinned: List[Tuple[Any, str, Any]] = []
+        self._pin_monotonic()
         version = {"v1": 0, "v2c": 1}.get(kind, 3)
         self.agent = Agent(db, version=version if version != 3 else 1, bulk_policy=bulk_policy)
         self.engine: Optional[rusm.Engine] = None
@@ -231,8 +233,28 @@ class World:
     def collect(self, agen, budget: int = 200):
         return tramp.drain(agen, self.answer, budget=budget)
 
+    def _pin_monotonic(self) -> None:
+        """
+        Names bound to time.monotonic / time.perf_counter inside puresnmp modules are pinned to a constant
+        (CrossHair replaces the real ones by non-deterministic stubs under tracing); harnesses that are about
+        time install their own virtual clock before creating the world, which this leaves alone.
+        """
+        import sys
+        import time as _time
+        import_all_puresnmp()
+        originals = (_time.monotonic, _time.perf_counter)
+        for modname, mod in list(sys.modules.items()):
+            if modname.startswith("puresnmp") and mod is not None:
+                for attr, val in list(vars(mod).items()):
+                    if any(val is o for o in originals):
+                        self._pinned.append((mod, attr, val))
+                        setattr(mod, attr, lambda: 5000.0)
+
     def close(self) -> None:
         self.rids.remove()
+        for mod, attr, val in reversed(self._pinned):
+            setattr(mod, attr, val)
+        self._pinned = []
 
     def known_exception(self, exc: BaseException) -> Optional[str]:
         """Known-finding id whose run-signature this exception + run matches, if any."""
